@@ -31,3 +31,8 @@ s = open(p).read()
 i = s.index("## 8. Seeded changes, refactorings, and which checks catch which")
 open(p, "w").write(s[:i] + text)
 print("section 8 rewritten: %d seeds, %d own, %d other, %d no-verdict, %d missed" % (n, len(own), len(other), len(nov), len(missed)))
+with open(os.path.join(V, "seeded", "MATRIX.md"), "w") as f:
+    f.write("# Seeded changes vs checks\n\nEach change was produced by an independent sub-agent that saw only the property text, then confirmed here "
+            "(applies, builds, 12/12 tests pass, demo fails with / passes without the change).  `detected by` lists the quick checks that "
+            "exit 1 with a VIOLATION line (or lose their anchor: analysis-broken) when the change is applied to /repo.  Regenerated from "
+            "seeded/*/meta.json by tools/mk_design_s8.py.\n\n" + table)
